@@ -110,6 +110,16 @@ func gobEncodeItem(it Item) ([]byte, error) {
 			return err
 		})
 	}
+	if IsLink(it) {
+		err = OnLink(it, func(l *Link) error {
+			if l == nil {
+				return nil
+			}
+			bytes, err := l.GobEncode()
+			b.Write(bytes)
+			return err
+		})
+	}
 	if IsObject(it) {
 		switch it.GetType() {
 		case IRIType:
